@@ -41,12 +41,20 @@ enum Pos {
     End,
     Loop { k: usize, part: String }, // part: spec | start | end
     After { text: String, nth: usize, before: bool },
-    Tail { k: Option<usize> },
-    Ret { k: Option<usize> },
+    Tail { k: Option<(usize, usize)> },
+    Ret { k: Option<(usize, usize)> },
     Closure { k: usize },
     KeepArms,
     Attr,
     LetType { name: String },
+}
+
+fn parse_range(s: &str) -> Option<(usize, usize)> {
+    if s == "*" { return None; }
+    match s.split_once('-') {
+        Some((a, b)) => Some((a.parse().ok()?, b.parse().ok()?)),
+        None => { let k: usize = s.parse().ok()?; Some((k, k)) }
+    }
 }
 
 fn parse_sel(name: &str, sel: &str) -> Pos {
@@ -95,8 +103,8 @@ fn parse_sel(name: &str, sel: &str) -> Pos {
             let nth = w.get(2).and_then(|s| s.strip_prefix('#')).and_then(|s| s.parse().ok()).unwrap_or(1);
             Pos::After { text: norm(&text), nth, before: w[0] == "@before" }
         }
-        "@tail" => Pos::Tail { k: w.get(1).and_then(|s| if s == "*" { None } else { s.parse().ok() }) },
-        "@return" => Pos::Ret { k: w.get(1).and_then(|s| if s == "*" { None } else { s.parse().ok() }) },
+        "@tail" => Pos::Tail { k: w.get(1).and_then(|s| parse_range(s)) },
+        "@return" => Pos::Ret { k: w.get(1).and_then(|s| parse_range(s)) },
         "@closure" => Pos::Closure { k: w.get(1).and_then(|s| s.parse().ok()).unwrap_or_else(|| bad()) },
         _ => bad(),
     }
@@ -293,7 +301,7 @@ fn mask_match(m: &mut syn::ExprMatch, keeps: &[Vec<String>], call: &syn::Expr, m
         // descend into the arm body: it must be (a block holding only) a match
         let inner: Option<&mut syn::ExprMatch> = match &mut *arm.body {
             syn::Expr::Match(mm) => Some(mm),
-            syn::Expr::Block(b) if b.block.stmts.len() == 1 => match b.block.stmts.last_mut() {
+            syn::Expr::Block(b) if !b.block.stmts.is_empty() => match b.block.stmts.last_mut() {
                 Some(syn::Stmt::Expr(syn::Expr::Match(mm), None)) => Some(mm),
                 _ => None,
             },
@@ -472,30 +480,30 @@ pub fn emit_fn(owner: Option<&str>, name: &str, mut f: syn::ItemFn, contracts: &
         }
     }
     // tails
-    let tail_ks: Vec<Option<usize>> = poss.iter().filter_map(|p| if let Pos::Tail { k } = p { Some(*k) } else { None }).collect();
+    let tail_ks: Vec<Option<(usize, usize)>> = poss.iter().filter_map(|p| if let Pos::Tail { k } = p { Some(*k) } else { None }).collect();
     let mut n_tails = 0usize;
     if !tail_ks.is_empty() {
         let all = tail_ks.iter().any(|k| k.is_none());
-        let ks: Vec<usize> = tail_ks.iter().filter_map(|k| *k).collect();
-        let want = move |n: usize| all || ks.contains(&n);
+        let ks: Vec<(usize, usize)> = tail_ks.iter().filter_map(|k| *k).collect();
+        let want = move |n: usize| all || ks.iter().any(|(a, b)| *a <= n && n <= *b);
         tail_of_block(&mut f.block, &mut n_tails, &want);
-        for k in tail_ks.iter().flatten() {
+        for (_, k) in tail_ks.iter().flatten() {
             if *k > n_tails {
                 lost(&format!("{}: @tail {} but only {} tail positions", name, k, n_tails));
             }
         }
     }
     // returns
-    let ret_ks: Vec<Option<usize>> = poss.iter().filter_map(|p| if let Pos::Ret { k } = p { Some(*k) } else { None }).collect();
+    let ret_ks: Vec<Option<(usize, usize)>> = poss.iter().filter_map(|p| if let Pos::Ret { k } = p { Some(*k) } else { None }).collect();
     let mut n_rets = 0usize;
     if !ret_ks.is_empty() {
         let all = ret_ks.iter().any(|k| k.is_none());
-        let ks: Vec<usize> = ret_ks.iter().filter_map(|k| *k).collect();
-        let want = move |n: usize| all || ks.contains(&n);
+        let ks: Vec<(usize, usize)> = ret_ks.iter().filter_map(|k| *k).collect();
+        let want = move |n: usize| all || ks.iter().any(|(a, b)| *a <= n && n <= *b);
         let mut rm = RetMarker { n: 0, want: &want };
         rm.visit_block_mut(&mut f.block);
         n_rets = rm.n;
-        for k in ret_ks.iter().flatten() {
+        for (_, k) in ret_ks.iter().flatten() {
             if *k > n_rets {
                 lost(&format!("{}: @return {} but only {} return statements", name, k, n_rets));
             }
@@ -640,7 +648,7 @@ pub fn emit_fn(owner: Option<&str>, name: &str, mut f: syn::ItemFn, contracts: &
                 let mut text = String::new();
                 for (i, p) in poss.iter().enumerate() {
                     if let Pos::Tail { k } = p {
-                        if k.is_none() || *k == Some(n) {
+                        if k.is_none() || k.map(|(a, b)| a <= n && n <= b).unwrap_or(false) {
                             text.push_str(&blocks[i].body);
                             blocks[i].used = true;
                         }
@@ -655,7 +663,7 @@ pub fn emit_fn(owner: Option<&str>, name: &str, mut f: syn::ItemFn, contracts: &
                 let mut text = String::new();
                 for (i, p) in poss.iter().enumerate() {
                     if let Pos::Ret { k } = p {
-                        if k.is_none() || *k == Some(n) {
+                        if k.is_none() || k.map(|(a, b)| a <= n && n <= b).unwrap_or(false) {
                             text.push_str(&blocks[i].body);
                             blocks[i].used = true;
                         }
